@@ -562,3 +562,49 @@ Proof.
     try (unfold wf_ctext, csr_wf, single_wf, two32; cbn; repeat split; repeat constructor; cbn; try discriminate; lia);
     try (apply stable_sorted; reflexivity).
 Qed.
+
+(* ======================================================================== *)
+(* the shape of what SetMapping / NewToUnicodeFile produce                     *)
+(* All *_bytes theorems (setmapping_lookup_bytes, setmapping_lookup_chain, tounicode_rt_bytes, ...) are keyed by
+   byte STRINGS: a code is the list of its bytes, so <41>, <0041> and <000041> are three different keys and the
+   length is part of the key.  The model groups the entries by key_of (ALL bytes but the last; equal prefixes
+   have equal lengths) and only then looks at the last byte: codes of different lengths never share a run. *)
+
+(* every produced range has one prefix (all-but-last bytes) for First and Last - hence equal lengths -,
+   First's last byte <= Last's last byte < 256, and every code of the range is a key of the map; every single
+   is an entry of the map (so codes keep their lengths) *)
+Theorem setmapping_ranges_wf :
+  forall csr f es,
+    NoDup (map fst es) -> wf_entries N es -> cid_ok es ->
+    Forall (crange_out_wf es) (c_ranges (set_mapping_bytes csr f es)) /\
+    Forall (fun s => In s es) (c_singles (set_mapping_bytes csr f es)).
+Proof. exact setmapping_ranges_wf_lemma. Qed.
+Print Assumptions setmapping_ranges_wf.
+
+(* the same for ToUnicode files, and the value list has one element or exactly one per code *)
+Theorem tounicode_ranges_wf :
+  forall csr es,
+    wf_entries text es ->
+    Forall (trange_out_wf es) (t_ranges (new_tounicode_bytes csr es)) /\
+    Forall (fun s => In s es) (t_singles (new_tounicode_bytes csr es)).
+Proof. exact tounicode_ranges_wf_lemma. Qed.
+Print Assumptions tounicode_ranges_wf.
+
+(* the code space <20>-<FF>, <0000>-<1FFF>: <41> and <0042> are numeric neighbours with consecutive CIDs, so are
+   <FF> and <0100>; they stay apart, only <0042>,<0043> form a range *)
+Definition lz_csr : list csrange := [([32], [255]); ([0; 0], [31; 255])].
+
+Example ex_leading_zero_codes :
+  let data := [(65, 5); (16896, 6); (17152, 7); (255, 9); (1, 10)] in   (* <41>, <0042>, <0043>, <FF>, <0100> as Codes *)
+  map (fun d => append_code lz_csr (fst d)) data = [[65]; [0; 66]; [0; 67]; [255]; [1; 0]] /\
+  let f := set_mapping lz_csr (CFile [] [] [] [] [] None) data in
+  c_singles f = [([65], 5); ([255], 9); ([1; 0], 10)] /\ c_ranges f = [([0; 66], [0; 67], 6)] /\
+  map (lookup_cid f) [[65]; [0; 66]; [0; 67]; [255]; [1; 0]; [0; 65]; [66]] = [5; 6; 7; 9; 10; 0; 0].
+Proof. vm_compute. repeat split; reflexivity. Qed.
+
+Example ex_leading_zero_text :
+  let es := [([65], [97]); ([0; 66], [98]); ([0; 67], [99]); ([255], [120]); ([1; 0], [121])] in
+  let f := new_tounicode_bytes lz_csr es in
+  t_singles f = [([65], [97]); ([255], [120]); ([1; 0], [121])] /\ t_ranges f = [([0; 66], [0; 67], [[98]])] /\
+  map (lookup_tu f) [[65]; [0; 66]; [0; 67]; [255]; [1; 0]; [0; 65]] = [Some [97]; Some [98]; Some [99]; Some [120]; Some [121]; None].
+Proof. vm_compute. repeat split; reflexivity. Qed.
